@@ -111,6 +111,7 @@ struct Global {
     const char* poison_cls = "memory";
     uint32_t tsc_last = 0;
     uint64_t spin_time = 0, stall_time = 0;
+    uint64_t floor_last_now = 0, floor_idle_steps = 0;
     bool trace_time = false;
     const char* budget_status = "inconclusive"; const char* budget_class = "budget";
 };
@@ -500,6 +501,12 @@ static inline void sched_point(Task* t, int kind) {
     G.steps++;
     t->streak++;
     if (cfg.cpu_cost_ns) G.now += cfg.cpu_cost_ns;
+    else {
+        // zero CPU cost: code that polls by yielding (no blocking call, no single spin word) would freeze simulated time and
+        // starve every sleeper; after a long stretch without any clock movement, charge 1 us per 1024 steps (counted as perturbation)
+        if (G.now != G.floor_last_now) { G.floor_last_now = G.now; G.floor_idle_steps = 0; }
+        else if (++G.floor_idle_steps > 200000 && (G.floor_idle_steps & 1023) == 0) { G.now += 1000; G.spin_time += 1000; G.floor_last_now = G.now; }
+    }
     if (G.next_deadline <= G.now) fire_timers();
     if (__builtin_expect(G.steps > cfg.max_steps, 0))
         finish(G.budget_status, G.budget_class, "step budget %llu exhausted", (unsigned long long)cfg.max_steps);
